@@ -18,7 +18,11 @@ class Spec:
 
 
 class Int(Spec):
-    pass
+    """``assumed=True`` (only meaningful in a cut abstraction): a value of unknown type is
+    *assumed* to be an int there (recorded as an assumption)"""
+
+    def __init__(self, assumed=False):
+        self.assumed = assumed
 
 
 class Bool(Spec):
@@ -82,7 +86,10 @@ class TD(Spec):
 
 
 class DictS(Spec):
-    """dict of unknown contents"""
+    """dict of unknown contents; ``types`` gives type facts for the values of some keys"""
+
+    def __init__(self, types=None):
+        self.types = types or {}
 
 
 class ListS(Spec):
@@ -169,7 +176,12 @@ def instantiate(E, name, spec):
                                           'level': lvl}
         return ref
     if isinstance(spec, DictS):
-        return E.alloc(HDict(base='dict_' + name))
+        d = HDict(base='dict_' + name)
+        for k, t in spec.types.items():
+            o = VO('%s[%r]' % (d.base, k))
+            d.val_cache[k] = o
+            E.tfacts[(o.name, t)] = True
+        return E.alloc(d)
     if isinstance(spec, ListS):
         sq = VSeq('L0_' + name, z3.Int('len_L0_' + name))
         E.assume(sq.length >= 0)
@@ -194,6 +206,9 @@ def abstract_value(E, cur, spec, name):
         return instantiate(E, name, spec)
     if isinstance(spec, Int):
         if not E.is_intlike(cur):
+            if spec.assumed and isinstance(cur, VO):
+                E.assumptions_used.add('value abstracted at a cut is assumed to be an int: ' + name.split('_', 1)[-1])
+                return instantiate(E, name, spec)
             raise Unsupported('cut: %s is not int-like (%r)' % (name, cur))
         return instantiate(E, name, spec)
     if isinstance(spec, Str):
@@ -223,7 +238,7 @@ class Contract:
     def __init__(self, func, params, requires=(), ensures=None, exc_ensures=None,
                  raises=None, raises_any=False, invariants=None, uses=(), returns=None,
                  effects=None, concretize=None, native=None, pre_hook=None, post_hook=None,
-                 notes='', propagate_opaque=True, max_paths=None, exit_hook=None, variant=None, cuts=None):
+                 notes='', propagate_opaque=True, max_paths=None, exit_hook=None, variant=None, cuts=None, call_hook=None):
         self.func = func
         self.params = params
         self.requires = list(requires)
@@ -246,6 +261,7 @@ class Contract:
         self._depth0 = 1
         self.variant = variant
         self.cuts = list(cuts or [])
+        self.call_hook = call_hook    # callable(E, env_locals) -> value | None (None: use the generic rule)
         self._cut_nodes = {}
         self.key = func if not variant else '%s#%s' % (func, variant)
         REGISTRY[self.key] = self
@@ -304,6 +320,19 @@ def verify(E, c, verbose=False):
             res.unsupported.append('cut %d: locator %r matches %d statements of %s' % (ci, cut['before'], len(hits), c.func))
         else:
             c._cut_nodes[id(hits[0])] = ci
+            # liveness (sound over-approximation): every name read at or after the cut in source
+            # order, plus every name read anywhere inside a loop that encloses the cut
+            node = hits[0]
+            names = set()
+            for n in ast.walk(fn.node):
+                if isinstance(n, ast.Name) and isinstance(n.ctx, ast.Load) and n.lineno >= node.lineno:
+                    names.add(n.id)
+            for loop in ast.walk(fn.node):
+                if isinstance(loop, (ast.For, ast.While)) and any(x is node for x in ast.walk(loop)):
+                    for n in ast.walk(loop):
+                        if isinstance(n, ast.Name) and isinstance(n.ctx, ast.Load):
+                            names.add(n.id)
+            cut['_auto_live'] = names
     work = [[]]
     limit = c.max_paths or E.max_paths
     prefix = c.key
@@ -492,11 +521,15 @@ def _apply_contract(E, c, fn, args, kwargs, node, env, site):
                 raise_with(exc_canon(c.raises[k - 1]))
         if c.effects:
             c.effects(E, env.locals, 'normal')
-        result = instantiate(E, E.fresh('ret_' + c.func.split('.')[-1]), c.returns) if c.returns else E.fresh_opaque('ret')
+        hooked = c.call_hook(E, env.locals) if c.call_hook else None
+        result = hooked if hooked is not None else instantiate(E, E.fresh('ret_' + c.func.split('.')[-1]), c.returns) if c.returns else E.fresh_opaque('ret')
         env.locals['result'] = result
         E.old_stash = old
         for k, nd in ens_nodes.items():
-            E.assume(E.as_z3_bool(E.eval_spec(nd, env)))
+            try:
+                E.assume(E.as_z3_bool(E.eval_spec(nd, env)))
+            except Unsupported:
+                pass    # a clause that cannot be evaluated here is simply not assumed (sound)
         if not E.feasible(z3.BoolVal(True)):
             raise PathAbort()
         return result
